@@ -7,7 +7,10 @@ import gens, ragidx
 EXTRA_READS = ["repr", "str", "iter", "ravel", "size", "shape", "tolist", "index", "ufunc", "reduce", "nonzero", "equals_self"]
 
 
-def gen_program(rng, n_stmts, max_rows=4, max_len=4, with_assign=True):
+def gen_program(rng, n_stmts, max_rows=4, max_len=4, with_assign=True, chain=False):
+    """chain=True: derivation chains (each new array derived from the most recent one with probability 0.75) followed by
+    writes into arbitrary earlier arrays and no intermediate reads -- the histories on which a derived array that still
+    shared storage with an INTERMEDIATE array would show (b = a[..]; c = b[..]; b[..] = v; read c)."""
     counter = [100]
     def fresh():
         counter[0] += 1
@@ -23,23 +26,34 @@ def gen_program(rng, n_stmts, max_rows=4, max_len=4, with_assign=True):
     for _ in range(k0):
         lens = gens.shape_random(rng, max_rows, max_len) if rng.random() < 0.6 else rng.choice(gens.shapes_exhaustive(3, 3))
         rows = [[fresh() % 50 for _ in range(l)] for l in lens]
-        add({"s": "new", "rows": rows})
+        # the numpy array the RaggedArray is constructed over (the constructor does not copy): contiguous, or a strided /
+        # reversed / column view of a larger array; `poke` statements write through it
+        add({"s": "new", "rows": rows, "base": rng.choice(["plain", "plain", "stride2", "rev", "col"])})
     for _ in range(n_stmts):
         live = [i for i in range(len(store.vars)) if store.vars[i] is not None]
         if not live:
             break
         x = rng.choice(live)
+        if chain:
+            n_deriv = max(2, (2 * n_stmts) // 3)
+            if _ < n_deriv:
+                if rng.random() < 0.75:
+                    x = live[-1]
+                kind = rng.choice(["select", "select", "select", "select", "add_scalar", "concat1", "sort", "alias"])
+            else:
+                kind = rng.choice(["assign", "assign", "poke"])
+        else:
+            kind = rng.choice(["select", "select", "select", "alias", "add_scalar", "add_arrays", "concat", "concat1", "sort", "cumsum", "diff",
+                               "read", "read", "read_idx", "read_sum"] + (["assign", "assign", "assign", "poke"] if with_assign else []))
         rows = store.val(x)
         n, m = len(rows), max([len(r) for r in rows], default=0)
-        kind = rng.choice(["select", "select", "select", "alias", "add_scalar", "add_arrays", "concat", "concat1", "sort", "cumsum", "diff",
-                           "read", "read", "read_idx", "read_sum"] + (["assign", "assign", "assign"] if with_assign else []))
         if kind == "select":
             r = ragidx.rowsel_random(n, rng)
-            if r["t"] in ("int", "all"):
+            if r["t"] in ("int", "all") or (chain and rng.random() < 0.5):
                 # a[...] / a[()] are whole-array ALIASES by design (statement `alias`); a selection of all rows is a[:]
-                r = {"t": "slice", "a": None, "b": None, "k": None}
+                r = {"t": "slice", "a": None, "b": None, "k": rng.choice([None, None, -1, 2]) if chain else None}
             c = None
-            if rng.random() < 0.6:
+            if rng.random() < (0.3 if chain else 0.6):
                 c = ragidx.colsel_random(m, rng)
                 if c["t"] == "int":
                     c = {"t": "slice", "a": c["i"], "b": None, "k": rng.choice([None, 1, -1, 2])}
@@ -62,7 +76,12 @@ def gen_program(rng, n_stmts, max_rows=4, max_len=4, with_assign=True):
                     r = {"t": "all"}
             c = ragidx.colsel_random(m, rng) if rng.random() < 0.5 else None
             idx = {"r": r, "c": c}
+            if chain and rng.random() < 0.5:
+                idx = {"r": {"t": "all"}, "c": None}
             add({"s": "assign", "x": x, "idx": idx, "val": ragidx.value_for_selection(rng, [len(rr) for rr in rows], idx, fresh)})
+        elif kind == "poke":
+            size = sum(len(r) for r in rows)
+            add({"s": "poke", "x": x, "k": rng.randint(0, size if rng.random() < 0.1 else max(0, size - 1)), "v": 500 + fresh() % 50})
         elif kind == "read_idx":
             r = ragidx.rowsel_random(n, rng)
             c = ragidx.colsel_random(m, rng) if rng.random() < 0.5 else None
@@ -130,6 +149,17 @@ class RefStore:
                     return None
                 self.cells[self.vars[st["x"]]] = new
                 return True
+            if s == "poke":
+                k = st["k"]
+                if k >= sum(len(r) for r in rows):
+                    return False
+                new = [list(r) for r in rows]
+                for r in new:
+                    if k < len(r):
+                        r[k] = st["v"]; break
+                    k -= len(r)
+                self.cells[self.vars[st["x"]]] = new
+                return True
             if s == "read":
                 return [list(r) for r in rows]
             if s == "read_idx":
@@ -140,7 +170,7 @@ class RefStore:
         except ragidx.Refused:
             if s in ("read", "read_idx", "read_sum"):
                 return "refuse"
-            if s != "assign":
+            if s not in ("assign", "poke"):
                 self.vars.append(None)
             return False
         raise ValueError(st)
@@ -164,7 +194,25 @@ def run_real(prog, extra_reads=None, variant=0):
     that position; they produce no observation."""
     from npstructures import RaggedArray
     xs = []
+    bases = {}       # variable -> function writing flat cell k through the numpy array the variable was constructed over
     trace = []
+    def construct(rows, kind):
+        data = np.array([v for r in rows for v in r], dtype=np.int64)
+        n = len(data)
+        if kind == "stride2":
+            base = np.full(2 * n + 1, -77, dtype=np.int64); base[:2 * n:2] = data
+            view = base[:2 * n:2]
+            def poke(k, v): base[2 * k] = v
+        elif kind == "rev":
+            base = data[::-1].copy(); view = base[::-1]
+            def poke(k, v): base[n - 1 - k] = v
+        elif kind == "col":
+            base = np.full((n, 3), -77, dtype=np.int64); base[:, 1] = data; view = base[:, 1]
+            def poke(k, v): base[k, 1] = v
+        else:
+            base = data; view = data
+            def poke(k, v): base[k] = v
+        return RaggedArray(view, [len(r) for r in rows]), poke
     def do_extra(v, kind):
         a = xs[v]
         if a is None:
@@ -192,8 +240,9 @@ def run_real(prog, extra_reads=None, variant=0):
         s = st["s"]
         try:
             if s == "new":
-                rows = st["rows"]
-                xs.append(RaggedArray(np.array([v for r in rows for v in r], dtype=np.int64), [len(r) for r in rows])); trace.append(True); continue
+                ra, poke = construct(st["rows"], st.get("base", "plain"))
+                bases[len(xs)] = poke
+                xs.append(ra); trace.append(True); continue
             x = xs[st["x"]] if st["x"] < len(xs) else None
             if x is None:
                 raise IndexError("no such array")
@@ -224,6 +273,14 @@ def run_real(prog, extra_reads=None, variant=0):
                 xs.append(np.diff(x, axis=-1)); trace.append(True)
             elif s == "assign":
                 x[ragidx.py_index(st["idx"], variant)] = py_value(st["val"]); trace.append(True)
+            elif s == "poke":
+                if not 0 <= st["k"] < x.size:
+                    raise IndexError("flat position out of range")
+                if st["x"] in bases and variant % 3 != 0:
+                    bases[st["x"]](st["k"], st["v"])          # write through the numpy array given to the constructor
+                else:
+                    x.ravel()[st["k"]] = st["v"]               # write through the flat view
+                trace.append(True)
             elif s == "read":
                 trace.append([[int(v) for v in r] for r in x.tolist()])
             elif s == "read_idx":
@@ -240,7 +297,7 @@ def run_real(prog, extra_reads=None, variant=0):
             if s in ("read", "read_idx", "read_sum"):
                 trace.append("refuse")
             else:
-                if s != "assign":
+                if s not in ("assign", "poke"):
                     xs.append(None)
                 trace.append(False)
     return trace
